@@ -68,9 +68,7 @@ pub fn flavours_for(prop: &str) -> Vec<Flavour> {
     }
     "C05" | "C04" | "C09" => {
       v.push(Flavour::Broadcast);
-      if prop != "C05" {
-        v.push(Flavour::Oneshot);
-      }
+      v.push(Flavour::Oneshot);
       v
     }
     _ => {
